@@ -310,3 +310,23 @@ impl<T: Qcow2IoOps> Qcow2Dev<T> {
         Ok(())
     }
 }
+
+#[cfg(qcow2_rs_verif)]
+impl<T: Qcow2IoOps> Qcow2Dev<T> {
+    /// verification hook: the used-cluster set of the leak check built from
+    /// `nums`; returns its sorted ranges and, per query, whether the cluster
+    /// counts as in use
+    pub fn verif_used_set(nums: &[u64], queries: &[u64]) -> (Vec<(u64, u64)>, Vec<bool>) {
+        let mut set: HashMap<u64, RangeInclusive<u64>> = HashMap::new();
+        for n in nums {
+            Self::add_used_cluster_to_set(&mut set, *n);
+        }
+        let sorted = sorted_ranges(&set);
+        let ranges = sorted.iter().map(|r| (*r.start(), *r.end())).collect();
+        let used = queries
+            .iter()
+            .map(|q| Self::is_allocated_cluster_in_use(&sorted, *q))
+            .collect();
+        (ranges, used)
+    }
+}
